@@ -50,10 +50,15 @@ previous image on the same compress object (for the `reused` test of the TJ vari
 def start (kind : Kind) (alloc : Bool) (ob : OutBuf) (prev : Option State) : Except Err State :=
   let alloc := match kind with | .std => true | .tj => alloc
   let nalloc := match prev with | some p => p.nalloc | none => 0
+  -- the TJ manager recognises the buffer of the previous image (with reallocation enabled) and then ignores the size
+  -- passed with it - also a size of 0 (repair of D41)
+  let reusedNow : Bool := match ob, prev with
+    | .reuse _, some _ => kind == .tj && alloc
+    | _, _ => false
   let needNew : Bool := match ob with
     | .null => true
     | .own d => d == 0
-    | .reuse d => d == 0
+    | .reuse d => d == 0 && !reusedNow
   if needNew then
     if alloc then .ok ⟨kind, alloc, nalloc + 1, OUTPUT_BUF_SIZE, OUTPUT_BUF_SIZE, [], nalloc + 1, some (nalloc + 1), []⟩
     else .error .bufferSize
